@@ -38,6 +38,23 @@ def cluster_job(name, prop, cfg=None, seed='fresh', seed_kw=None, budget=None, c
                           prefix_len=len(m.prefix_events), seed_shape_ok=m.seed_shape_ok,
                           node_steps_executed=m.st.node_steps, distinct_node_states=len(m.st.store),
                           exceptions_seen=dict(m.exceptions_seen)))
+    # determinism self-check: re-execute one explored path (the deepest sample) twice on fresh models and
+    # compare the canonical key after every step; any difference is a harness error, not a finding
+    if res.samples and not res.violations and 'harness_error' not in res.extra:
+        path = [tuple(e) for e in res.samples[-1]]
+        try:
+            keysets = []
+            for _ in range(2):
+                m2 = build_model(cfg, seed, seed_kw, budget, clauses, extra_monitors, name)
+                msg, keys = core.replay(m2, path)
+                keysets.append((msg, keys))
+            if keysets[0] != keysets[1]:
+                res.extra['harness_error'] = 'nondeterminism: replaying the same path twice gave different states (%r)' % (path,)
+            res.extra['determinism_replays'] = 2
+        except core.Violation as v:
+            res.extra['harness_error'] = 'determinism replay raised: %s' % v.msg
+        except core.HarnessError as e:
+            res.extra['harness_error'] = 'determinism replay failed: %r' % (e,)
     res.samples = [list(m.prefix_events) + ['|'] + s for s in res.samples][:2]
     for v in res.violations:
         v['prefix'] = list(m.prefix_events)
